@@ -795,9 +795,11 @@ namespace occa {
         return;
       }
       // Make sure that the macro starts with a '('
-      token_t *nextToken = NULL;
-      (*this) >> nextToken;
-      if (nextToken->getOpType() & operatorType::parenthesesStart) {
+      // Only look at the next source token: running it through the preprocessor
+      //   would expand it (and release the macros being expanded) before it is
+      //   pushed back and processed a second time
+      token_t *nextToken = getSourceToken();
+      if (token_t::safeOperatorType(nextToken) & operatorType::parenthesesStart) {
         expandMacro(token, *macro);
         delete &token;
         delete nextToken;
